@@ -119,7 +119,7 @@ Print Assumptions T15_6_special_methods_unknown.
 
 (* T15.7 (round 5, seed C15-d) literal_value is a function of (expression, names the file rebinds) ONLY.
    [lv_rb rb] = LitValRbModel.lv_rb, the evaluator on a file that binds the names [rb] (guards of 415ff77 and
-   f968b0f); [eval_rb rb] = the reference semantics of a program that rebinds [rb] (a call through a rebound name
+   82d6460); [eval_rb rb] = the reference semantics of a program that rebinds [rb] (a call through a rebound name
    may do anything: no claim).  The harness compares every result of the real code -- first call of a process or
    after other files -- with [lv_rb rb e] (harness/c15_history.py). *)
 (* a file that rebinds nothing: the model all theorems above are about *)
